@@ -3,7 +3,7 @@
  "name": "try_lseek_copy",
  "props": ["C18"],
  "level": "U/iter",
- "tier": "wip",
+ "tier": "quick",
  "tier_after_hooks": "quick",
  "harness": "h_try_lseek_copy",
  "replace": ["copy_file_chunk"],
